@@ -7,6 +7,9 @@ IDENT = r"[!-'*-~][!-~]*|[()][!-~]+"
 INTLIT = r"[+-]?[0-9]+"
 DIGITS = r"[0-9]+"
 
+# default value of an `id` symbol: any token text the lexer can type ID / DQ_STRING - never a bare dot or parenthesis
+NAME_DEFAULT = r"[!-'*-\-/-<>-~][!-~]*"
+
 TERMINALS = {"LP": "(", "RP": ")", "COMMA": ",", "DOT": ".", "EQ": "=", "COMMAT": ","}
 
 
@@ -25,7 +28,7 @@ def production(G, alt, values, name="p"):
         elif s.isupper():
             out.append(s)
         elif s == "id":
-            out.append(G.str("%s%d" % (name, i), IDENT))
+            out.append(G.str("%s%d" % (name, i), NAME_DEFAULT))
         else:
             raise KeyError("no value for symbol %s of %r" % (s, alt))
     return G.prod(out, syms)
@@ -83,7 +86,7 @@ def strip_one_pair(v):
 
 # ---- value schemas of the column / reference non-terminals (DESIGN Appendix D) -------------------
 # a name as delivered by the `id` non-terminal in a column / table position: never a bare dot or parenthesis
-NAME = r"[!-'*-\-/-~][!-~]*"
+NAME = r"[!-'*-\-/-<>-~][!-~]*"
 TYPE_TEXT = r"[!-~]([ -~]*[!-~])?"
 STRLIT = r"'[ -&(-~]*'"
 
@@ -146,3 +149,13 @@ def parser_constant(attr):
         from simple_ddl_parser import DDLParser
         _real_parser = DDLParser("")
     return getattr(_real_parser, attr, None)
+
+
+def opaque(tag, *args):
+    """native stand-in of the verifier's opaque(): a hashable description of an unmodelled result"""
+    return ("opaque", tag) + tuple(repr(a) for a in args)
+
+
+def ghost_call(tag, *args):
+    """native stand-in of the verifier's ghost_call(): no effect"""
+    return None
